@@ -133,7 +133,8 @@ def named_recipes(rng, count):
 
 
 def pick_scale(rng):
-    return rng.choice([[1, 2], [3, 2], [2, 1], [3, 1], [5, 4], [3, 4], [1, 3], [4, 1], [7, 8]])
+    # mostly modest factors; now and then a change of units by three to four orders of magnitude
+    return rng.choice([[1, 2], [3, 2], [2, 1], [3, 1], [5, 4], [3, 4], [1, 3], [4, 1], [7, 8], [1000, 1], [2500, 1], [10000, 1]])
 
 
 def generic_recipes(rng, count, fmin, fmax):
@@ -264,7 +265,13 @@ def drive(recipe):
     sproj = Projector(wmax)
     try:
         w2 = WulffConstruction(normals, energies * (sn / sd))
-        t["scale"].update(exc="", verts=[sproj.point(v * (q * sd)) for v in np.asarray(w2.wulff_vertices)])
+        # projected at the scale of the unscaled shape (relative float noise does not grow with the factor), then
+        # multiplied back by sn exactly
+        def rescaled(v):
+            h = sproj.point(v * (q * sd) / sn)
+            g = math.gcd(math.gcd(abs(sn * h[0]), abs(sn * h[1])), math.gcd(abs(sn * h[2]), h[3])) or 1
+            return [sn * h[0] // g, sn * h[1] // g, sn * h[2] // g, h[3] // g]
+        t["scale"].update(exc="", verts=[rescaled(v) for v in np.asarray(w2.wulff_vertices)])
     except Exception as e:
         t["scale"]["exc"] = type(e).__name__
     t["scale"]["offgrid"] = sproj.offgrid
